@@ -35,8 +35,11 @@ FILES = {
     "sibling": "1,dan\n2,eve\n4,fay\n",
     "empty": "",
     "accents": "5,Andr\u00e9\n6,Zo\u00eb\n",  # stored in the data format's default encoding (cp1252), not in that of the CID file
+    # names that mean something to glob patterns, each next to a file the pattern would match and whose verdict is the opposite
+    "bad[1]": "1,ann\nx,bob\n", "bad1": "1,ann\n",
+    "go?d": "1,ann\n2,bob\n", "good": "1,ann\n1,bob\n",
 }
-KINDS = ["accepted", "field", "unique", "sibling", "missing", "directory", "empty", "accents"]
+KINDS = ["accepted", "field", "unique", "sibling", "missing", "directory", "empty", "accents", "bad[1]", "go?d"]
 UNTILS = [None, -1, 0, 1, 2, 3]
 _FOLDER = {}
 
